@@ -8,14 +8,17 @@ import vlib
 ap = argparse.ArgumentParser()
 ap.add_argument("--tier")
 ap.add_argument("--replay")
+ap.add_argument("--optimized-child", action="store_true")      # the same scenarios judged in an interpreter started with -O (asserts compiled away)
 args = ap.parse_args()
+CHILD = args.optimized_child
 TIER = vlib.tier(args.tier)
 SCALE = 1 if TIER == "quick" else 6
 
 vlib.setup_impl_path()
 rep = vlib.Report("C04", TIER)
-props = vlib.build_props("C04")
-rep.add_props(props)
+props = vlib.build_props("C04") if not CHILD else []
+if not CHILD:
+    rep.add_props(props)
 
 import PyKCS11.LowLevel as LL
 
@@ -170,6 +173,27 @@ for wt in (True, False):
         {**kd, "ksk_b": ceremony.ksk_def(KB)}, schema={1: {"publish": ["ksk_b"], "sign": ["ksk_a"], "revoke": []}}, nb=1)
 run("unknown-key-name-in-schema", BASE_MODS, {"ksk_a": ceremony.ksk_def(KA)}, schema={1: {"publish": ["ksk_zz"], "sign": ["ksk_a"], "revoke": []}}, nb=1)
 
+if CHILD:
+    import json
+    for m in meta:
+        if not m["spec_ok"]:
+            print("CHILD-PROBLEM " + json.dumps({"kind": m["kind"], "msg": m["spec_msg"], "desc": {k: str(v)[:200] for k, v in m["desc"].items()}}))
+    print(f"CHILD-DONE {len(meta)}")
+    sys.exit(0)
+# the same deterministic scenarios in an interpreter that runs optimised (python -O / PYTHONOPTIMIZE): which keys may sign does not depend on how the tool is started
+import json
+import os
+import subprocess
+child = subprocess.run([sys.executable, "-O", "-B", os.path.abspath(__file__), "--optimized-child", "--tier", TIER], capture_output=True, text=True, timeout=900,
+                       env=dict(os.environ, PYTHONOPTIMIZE="1"))
+done = [l for l in child.stdout.splitlines() if l.startswith("CHILD-DONE ")]
+hist["optimised-interpreter-scenarios"] = int(done[0].split()[1]) if done else 0
+if not done:
+    rep.violation("model-mismatch", "the scenarios could not be run in an optimised interpreter: " + (child.stderr or child.stdout)[-400:], {"kind": "optimised-interpreter"}, found_input=False)
+for l in child.stdout.splitlines():
+    if l.startswith("CHILD-PROBLEM "):
+        d_ = json.loads(l[len("CHILD-PROBLEM "):])
+        rep.violation("impl-vs-spec", f"{d_['kind']} (interpreter started with -O): {d_['msg']}", {"kind": d_["kind"], "interpreter": "python -O", **d_["desc"]})
 # 5. random combinations
 for i in range(25 * SCALE):
     tokkey = R.choice([KA, KA, KA, KA_OTHER, KA_2048, KA_E3])
